@@ -87,7 +87,23 @@ theorem gramAcc_shaped (ws : List Rat) (A B : Mat) (a b : Nat) (hA : A.length = 
   obtain ⟨ra, _, rfl⟩ := List.mem_map.mp hrow
   simp [hB]
 
-theorem ent_gramAcc (ws : List Rat) (A B : Mat) (a b n : Nat) (hA : Shaped A a n) (hB : Shaped B b n) (hw : ws.length = n)
+theorem sumL_zipWith_mul (ws v : List Rat) (n : Nat) (hv : v.length = n) :
+    sumL (List.zipWith (· * ·) ws v) = ∑ k ∈ range n, ws.getD k 0 * v.getD k 0 := by
+  induction v generalizing ws n with
+  | nil => simp at hv; subst hv; simp [sumL]
+  | cons x xs ih =>
+    cases n with
+    | zero => simp at hv
+    | succ n =>
+      simp only [List.length_cons, Nat.add_right_cancel_iff] at hv
+      cases ws with
+      | nil => simp [sumL]
+      | cons w ws =>
+        rw [sum_range_succ', List.zipWith_cons_cons, sumL, ih ws n hv]
+        simp only [List.getD_cons_succ, List.getD_cons_zero]
+        ring
+
+theorem ent_gramAcc (ws : List Rat) (A B : Mat) (a b n : Nat) (hA : Shaped A a n) (hB : Shaped B b n)
     (i j : Nat) (hi : i < a) (hj : j < b) :
     ent (gramAcc ws A B) i j = ∑ k ∈ range n, ent A i k * ws.getD k 0 * ent B j k := by
   have h1 : i < A.length := by rw [hA.1]; exact hi
@@ -97,24 +113,46 @@ theorem ent_gramAcc (ws : List Rat) (A B : Mat) (a b n : Nat) (hA : Shaped A a n
   unfold ent gramAcc
   simp only [List.getD_eq_getElem?_getD, List.getElem?_map, List.getElem?_eq_getElem h1, List.getElem?_eq_getElem h2,
     Option.map_some, Option.getD_some]
-  rw [sumL_eq_sum _ n (by simp [hw, la, lb])]
+  rw [sumL_zipWith_mul ws _ n (by simp [la, lb])]
   apply sum_congr rfl
   intro k hk
   simp only [mem_range] at hk
-  have k1 : k < ws.length := by omega
   have k2 : k < (A[i]).length := by omega
   have k3 : k < (B[j]).length := by omega
-  simp [List.getElem?_zipWith, k1, k2, k3]
+  simp [List.getD_eq_getElem?_getD, List.getElem?_zipWith, k2, k3]
   ring
 
 /-- `gramAcc ws A B = A · diag(ws) · Bᵀ` -/
-theorem toM_gramAcc (ws : List Rat) (A B : Mat) (a b n : Nat) (hA : Shaped A a n) (hB : Shaped B b n) (hw : ws.length = n) :
+theorem toM_gramAcc (ws : List Rat) (A B : Mat) (a b n : Nat) (hA : Shaped A a n) (hB : Shaped B b n) :
     toM a b (gramAcc ws A B)
       = toM a n A * Matrix.diagonal (fun k : Fin n => ws.getD k 0) * (toM b n B).transpose := by
   funext i j
   rw [Matrix.mul_apply]
   simp only [Matrix.mul_diagonal, Matrix.transpose_apply, toM]
-  rw [ent_gramAcc ws A B a b n hA hB hw i j i.2 j.2]
+  rw [ent_gramAcc ws A B a b n hA hB i j i.2 j.2]
   rw [← Fin.sum_univ_eq_sum_range (fun k => ent A i k * ws.getD k 0 * ent B j k) n]
+
+theorem matSub_shaped (A B : Mat) (r c : Nat) (hA : Shaped A r c) (hB : Shaped B r c) : Shaped (matSub A B) r c := by
+  unfold matSub
+  refine ⟨by simp [hA.1, hB.1], ?_⟩
+  intro row hrow
+  rw [List.mem_iff_getElem] at hrow
+  obtain ⟨i, hi, rfl⟩ := hrow
+  simp only [List.length_zipWith] at hi
+  simp only [List.getElem_zipWith, List.length_zipWith]
+  have la : (A[i]'(by omega)).length = c := hA.2 _ (List.getElem_mem _)
+  have lb : (B[i]'(by omega)).length = c := hB.2 _ (List.getElem_mem _)
+  omega
+
+theorem toM_matSub (A B : Mat) (r c : Nat) (hA : Shaped A r c) (hB : Shaped B r c) :
+    toM r c (matSub A B) = toM r c A - toM r c B := by
+  funext i j
+  simp only [toM, Matrix.sub_apply]
+  have h1 : (i : Nat) < A.length := by rw [hA.1]; exact i.2
+  have h2 : (i : Nat) < B.length := by rw [hB.1]; exact i.2
+  have la : (A[(i : Nat)]).length = c := hA.2 _ (List.getElem_mem h1)
+  have lb : (B[(i : Nat)]).length = c := hB.2 _ (List.getElem_mem h2)
+  unfold ent matSub
+  simp [List.getD_eq_getElem?_getD, h1, h2, la, lb, j.2]
 
 end NV
